@@ -19,6 +19,20 @@ Check (C10_accept_implies_dialable :
 Check (C10_offer_filter :
   forall c ls peer l a, In a (accepted c ls peer l) ->
     In a l /\ supported c a = true /\ is_local c ls a = false /\ last a (Other 0) = P2p peer).
+Check (C10_service_offer_filter :
+  forall c ls peer l a, In a (accepted c ls peer (ts_prepare peer l)) ->
+    (exists a0, In a0 l /\
+       ((last a0 (Other 0) = P2p peer /\ a = a0) \/
+        ((forall q, last a0 (Other 0) <> P2p q) /\ a = a0 ++ [P2p peer]))) /\
+    supported c a = true /\ is_local c ls a = false /\ last a (Other 0) = P2p peer).
+Check (C10_litep2p_level :
+  forall c k ls h p s a z,
+    only_adds h ->
+    get p (bk (fst (run c k (mkState [] ls 0 []) h))) = Some s -> In (a, z) s ->
+    (supported c a = true /\ is_local c ls a = false /\ last a (Other 0) = P2p p) /\
+    (enabled c (route c a) = true /\
+     exists ho port, parse (route c a) a = Some (ho, port, Some p) /\
+                     host_unspecified ho = false)).
 Check (C10_listen_monotone :
   forall c l1 l2 a, incl l1 l2 -> is_local c l2 a = false -> is_local c l1 a = false).
 Check (C10_remembered_acceptable :
@@ -35,18 +49,26 @@ Check (C10_remembered_dialable :
     get p (bk (fst (run c k (mkState [] L0 0 []) h))) = Some s -> In (a, z) s ->
     last a (Other 0) = P2p p /\ enabled c (route c a) = true /\
     exists ho port, parse (route c a) a = Some (ho, port, Some p)).
+Check (C10_remembered_not_own_listen :
+  forall c k L0 h p s a z,
+    Forall (op_strict c L0) h ->
+    get p (bk (fst (run c k (mkState [] L0 0 []) h))) = Some s -> In (a, z) s ->
+    (last a (Other 0) = P2p p /\ enabled c (route c a) = true /\
+     exists ho port, parse (route c a) a = Some (ho, port, Some p)) /\
+    forall l, In l L0 -> strip_p2p a <> l /\ strip_p2p a <> l ++ [P2p (local_peer c)]).
 Check (C10_dial_address_filter :
   forall c st a t q,
     dial_addr_check c st a = DAOk t q ->
     free_capacity c st 0 <> None /\
-    existsb (maddr_eqb a) (listen_set c (lst st)) = false /\
+    (existsb (maddr_eqb a) (listen_set c (lst st)) = false /\
+     existsb (maddr_eqb (strip_p2p a)) (listen_set c (lst st)) = false) /\
     route c a = t /\
     (last a (Other 0) = P2p q /\ enabled c (route c a) = true /\
      exists ho port, parse (route c a) a = Some (ho, port, Some q))).
 Check (C10_supported_implies_dial_address :
   forall c st a,
     supported c a = true -> free_capacity c st 0 <> None ->
-    existsb (maddr_eqb a) (listen_set c (lst st)) = false ->
+    own_listen c (lst st) a = false ->
     exists q, last a (Other 0) = P2p q /\ dial_addr_check c st a = DAOk (route c a) q).
 Check (C10_step_preserves :
   forall c k L0 st o,
@@ -148,6 +170,9 @@ Check (C10_error_variants_in_sync :
   ErrNames.model_variants = DialErrors.variants /\ ErrNames.model_gates = DialErrors.gates).
 Check (C10_store_sites_in_sync :
   ErrNames.model_store_sites = DialErrors.store_sites).
+Check (C10_entry_sites_in_sync :
+  ErrNames.model_entry_sites = DialErrors.entry_sites /\
+  ErrNames.listen_before_known DialErrors.new_call_order = true).
 Check (C10_error_kinds_enumerated :
   forall e, In e all_dial_errors /\ err_of_code (err_code e) = Some e).
 Check (C10_error_score_negative :
